@@ -11,8 +11,9 @@ package directive
 // (nopIncludeTracer, scanner.emptyIncludeTracer, scanner.directiveIncludeTracer) only append to the error's trace.
 //@ iface IncludeTracer.AddIncludeTraceToError(t, je)
 //@   property C07
-//@   modifies je.includeTrace, je.includeTrace[:]
-//@   ensures imp(je != nil, len(je.includeTrace) >= old(len(je.includeTrace)))
+//@   modifies je.includeTrace
+//@   ensures imp(je != nil, len(je.includeTrace) >= old(len(je.includeTrace))
+//@       && (je.includeTrace.arr == old(je.includeTrace.arr) || fresh(je.includeTrace.arr)))
 
 // NewDirectiveType goes through a map built once at first use; its table is checked on the complete finite domain
 // (30 keywords + all 3-character strings of digits) by /verif/bounded (finite-domain, counted separately).
